@@ -95,7 +95,7 @@ def run(ctx):
         proj = d.get("project", ["?", "", "", "", ""])
         kinds[proj[0]] += 1
         for t in (proj[1].split(",") if len(proj) > 1 and proj[1] else []):
-            if proj[0] in ("template", "random-kinds", "import-rule", "early-diagnostic"):
+            if proj[0] in ("template", "random-kinds", "import-rule", "early-diagnostic", "lookup-visibility", "c16-world"):
                 tpl_tags[t] += 1
             if t.startswith("shape=") or t in ("generics", "ill-typed", "multi-file"):
                 tags[t] += 1
@@ -321,6 +321,11 @@ def run(ctx):
         "of lets, ifs and parentheses, the same function / type / trait name in two files of a package, self-imports and import cycles (the separate builds "
         "then run in an order read off the import lines), a main.gom that is not the first file; nested calls only to depth 10 (compile time doubles per level, both ways)",
         "topological orders: all of them in the thorough tier (<= 120), a seeded sample of 6 in the quick tier",
+        "lookup-visibility catalogue (harness/src/c14.rs::lookup_visibility_projects): every type-directed lookup the typer performs in 'the environments of the "
+        "dependencies' (field, field of a generic struct, inherent method, Trait::m(v), method syntax, trait bound, dyn coercion, match) on a value the user package "
+        "only receives from another package (call result, let, closure parameter) x owner of the type imported by the user's file / only by a sibling file / reachable "
+        "only through an import of an import x impl beside the type / beside the trait x user = Main / a library; nothing is expected of a project except that both "
+        "pipelines agree (isolation itself is C16's business); c16-world: the first 60 (thorough 600) C16 worlds with intact directories and at least one placement",
     ]
     tb = ["Lean 4 kernel", "axioms: " + ",".join(ctx.proof["axioms"] or ["none"]), "Sem / Go.Sem / Go.Check", "harness/src/c14.rs, c13.rs (project generator), dump.rs, godump.rs",
           "tools/props/c14.py"]
